@@ -76,12 +76,18 @@ def main():
             if name.startswith("control-"):
                 r["expected"] = "silent"
                 r["ok"] = r["exit"] == 0
+            elif name.startswith("rewrite-"):
+                # a behaviour-preserving rewrite that breaks a PROOF OBLIGATION (translator tie): by the brief it is
+                # reported, but only as `... no-failing-input-found`; a concrete replay would be a false alarm
+                r["expected"] = "no concrete violation (silent, or reported with no-failing-input-found only)"
+                r["ok"] = r["exit"] == 0 or (r["caught"] and not r["concrete"])
             else:
                 r["expected"] = "caught"
                 r["ok"] = r["caught"]
             res[key] = r
             save_one(key, r)
             print("%-40s %s %s %s %.0fs" % (key, pid, ("SILENT" if r["ok"] else "FALSE-ALARM") if name.startswith("control-") else
+                                            ("NO-CONCRETE" if r["ok"] else "FALSE-ALARM") if name.startswith("rewrite-") else
                                             "CAUGHT" if r["caught"] else ("NOAPPLY" if not r["applies"] else "MISSED"),
                                             "" if r["concrete"] or not r["caught"] else "(no concrete input)", r["wall_s"]))
             sys.stdout.flush()
